@@ -31,8 +31,8 @@ RULE = ("(a) every supported harmonic alone x sign of C in {+,-} x every special
         "phi on a 96-point circle + seeded samples. A case is non-trivial when some magnitude is non-zero; distinct = "
         "distinct coefficient dict")
 BOUNDS = {"harmonics": [f"C{n}{m}" for n, m in HARMONICS], "magnitude_A": [1e-3, 1e7], "phi_rad": [-4 * math.pi, 4 * math.pi],
-          "alpha_rad": [0.0, 0.06], "random_single": {"quick": 12, "thorough": 300},
-          "random_full": {"quick": 60, "thorough": 3000}, "random_subset": {"quick": 60, "thorough": 3000}}
+          "alpha_rad": [0.0, 0.06], "random_single": {"quick": 12, "thorough": 150},
+          "random_full": {"quick": 60, "thorough": 1500}, "random_subset": {"quick": 60, "thorough": 1500}}
 EXHAUSTIVE = False
 ASSUMPTIONS = ["float64 round trip: per-harmonic difference <= 1e-11 * |C_nm|; total chi difference <= 1e-11 * "
                "sum_nm |C_nm| alpha^(n+1)/(n+1)",
